@@ -609,12 +609,20 @@ func readFrame(r *bufio.Reader) (*frame, error) {
 // ServeConn serves one connection until EOF, error or an injected close. It returns when the
 // connection is finished; the connection is always closed on return.
 func (s *Store) ServeConn(c io.ReadWriteCloser) {
+	s.serveConn(c, s.register(c))
+}
+
+func (s *Store) register(c io.ReadWriteCloser) int {
 	s.connMu.Lock()
+	defer s.connMu.Unlock()
 	s.nextConn++
 	id := s.nextConn
 	s.open[id] = c
 	s.accepted++
-	s.connMu.Unlock()
+	return id
+}
+
+func (s *Store) serveConn(c io.ReadWriteCloser, id int) {
 	defer func() {
 		c.Close()
 		s.connMu.Lock()
@@ -853,6 +861,14 @@ func (srv *Server) Close() {
 
 // Pipe returns a client side io.ReadWriteCloser connected to the store through an in-memory
 // full-duplex pipe served by its own goroutine.
+// PipeID is Pipe that also returns the connection id the store uses for the new connection.
+func (s *Store) PipeID() (io.ReadWriteCloser, int) {
+	a, b := BufferedPipe()
+	id := s.register(b)
+	go s.serveConn(b, id)
+	return a, id
+}
+
 func (s *Store) Pipe() io.ReadWriteCloser {
 	a, b := BufferedPipe()
 	go s.ServeConn(b)
